@@ -238,6 +238,8 @@ impl<'a, 'tcx> H<'a, 'tcx> {
                 out.kstr("k", "Loop");
                 self.common(out, e);
                 out.kstr("src", &format!("{:?}", src));
+                // identity of the loop: `break` / `continue` name their target loop by it (labelled or innermost)
+                out.kstr("id", &format!("{:?}", e.hir_id.local_id));
                 out.key("b");
                 self.block(out, b);
             }
@@ -341,17 +343,23 @@ impl<'a, 'tcx> H<'a, 'tcx> {
                 out.key("e");
                 self.expr(out, i);
             }
-            K::Break(_, v) => {
+            K::Break(dest, v) => {
                 out.kstr("k", "Break");
                 self.common(out, e);
+                if let Ok(target) = dest.target_id {
+                    out.kstr("target", &format!("{:?}", target.local_id));
+                }
                 if let Some(v) = v {
                     out.key("e");
                     self.expr(out, v);
                 }
             }
-            K::Continue(_) => {
+            K::Continue(dest) => {
                 out.kstr("k", "Continue");
                 self.common(out, e);
+                if let Ok(target) = dest.target_id {
+                    out.kstr("target", &format!("{:?}", target.local_id));
+                }
             }
             K::Ret(v) => {
                 out.kstr("k", "Ret");
